@@ -28,6 +28,7 @@ PARAM_SRC = "lambda i: None"
 
 
 def reset():
+    mx.set_recalc(False)
     for m in list(mx.get_models().values()):
         m.close()
 
